@@ -48,6 +48,14 @@ kubernetes:
   apiVersion: v1
   kind: Secret
   group: g
+  includeSnapshotsFrom: ["all-cm"]
+- name: grouped-third
+  apiVersion: v1
+  kind: Secret
+  group: g
+  namespace:
+    nameSelector:
+      matchNames: ["ns1"]
 - name: grouped-cm
   apiVersion: v1
   kind: ConfigMap
@@ -59,6 +67,10 @@ schedule:
 - name: sched
   crontab: "* * * * *"
   includeSnapshotsFrom: ["ns1-cm"]
+- name: gsched
+  crontab: "*/5 * * * *"
+  group: g
+  includeSnapshotsFrom: ["named-cm"]
 kubernetesValidating:
 - name: adm.example.com
   includeSnapshotsFrom: ["all-cm"]
@@ -141,6 +153,8 @@ func TestVerifConfSnapshots(t *testing.T) {
 			add(secrets, "Secret", func(ns, n string) bool { return true })
 		case "grouped-cm":
 			add(cms, "ConfigMap", func(ns, n string) bool { return ns == "ns2" })
+		case "grouped-third":
+			add(secrets, "Secret", func(ns, n string) bool { return ns == "ns1" })
 		}
 		sort.Slice(out, func(i, j int) bool {
 			a, b := strings.Split(out[i], "/"), strings.Split(out[j], "/")
@@ -181,10 +195,13 @@ func TestVerifConfSnapshots(t *testing.T) {
 		}
 		return hc, sync
 	}
-	bindings := []string{"all-cm", "ns1-cm", "named-cm", "grouped-secrets", "grouped-cm"}
+	bindings := []string{"all-cm", "ns1-cm", "named-cm", "grouped-secrets", "grouped-cm", "grouped-third"}
 	wantKeys := map[string][]string{
 		"all-cm": {"all-cm", "ns1-cm"}, "ns1-cm": {}, "named-cm": {},
-		"grouped-secrets": {"grouped-cm", "grouped-secrets"}, "grouped-cm": {"grouped-cm", "grouped-secrets"},
+		// a group of three kubernetes bindings (three names: the group's list has spare capacity); two
+		// members of the group (one kubernetes binding, one schedule) name a different binding of their own
+		"grouped-secrets": {"all-cm", "grouped-cm", "grouped-secrets", "grouped-third"}, "grouped-cm": {"grouped-cm", "grouped-secrets", "grouped-third"},
+		"grouped-third": {"grouped-cm", "grouped-secrets", "grouped-third"},
 	}
 	check := func(phase string, hc *HookController) {
 		// one execution with a Synchronization and an Event context of every binding
@@ -203,6 +220,7 @@ func TestVerifConfSnapshots(t *testing.T) {
 			want []string
 		}{
 			{types.Schedule, "sched", []string{"ns1-cm"}},
+			{types.Schedule, "gsched", []string{"grouped-cm", "grouped-secrets", "grouped-third", "named-cm"}},
 			{types.KubernetesValidating, "adm.example.com", []string{"all-cm"}},
 			{types.KubernetesMutating, "adm.example.com", []string{"named-cm"}},
 			{types.KubernetesConversion, "conv", []string{"all-cm", "ns1-cm"}},
@@ -311,5 +329,5 @@ func TestVerifConfSnapshots(t *testing.T) {
 			}
 		}
 	}
-	fmt.Printf("CONF-STATS evaluated=%d scope=fake cluster (2 namespaces, 7 config maps, 3 secrets, adds and deletes), 5 kubernetes bindings (all namespaces / one namespace + jqFilter / two namespaces without full objects / two sharing a group): one execution with a Synchronization and an Event context of every binding plus one context of a schedule, a validating, a mutating (same name as the validating one) and a conversion binding after each change: keys of snapshots, content = matching objects each once in (namespace, name) order, identical everywhere\n", evaluated)
+	fmt.Printf("CONF-STATS evaluated=%d scope=fake cluster (2 namespaces, 7 config maps, 3 secrets, adds and deletes), 6 kubernetes bindings (all namespaces / one namespace + jqFilter / two namespaces without full objects / three sharing a group, one of them and a schedule of the group naming a further binding each): one execution with a Synchronization and an Event context of every binding plus one context of two schedules, a validating, a mutating (same name as the validating one) and a conversion binding after each change: keys of snapshots, content = matching objects each once in (namespace, name) order, identical everywhere\n", evaluated)
 }
